@@ -230,6 +230,9 @@ def _id_task(rng, shared_gens, files, tname, nops, small):
         if small and text.count("\n") > 40:
             text = workload.truncate_at(text, rng.randint(3, 40))
         if streams and r > 0.8:
+            if rng.random() < 0.2:  # the caller changes the print options of a live stream
+                ops.append({"op": "setopts", "s": rng.randrange(len(streams)), "o": ALL_OPTS[rng.randrange(8)], "how": rng.choice(["mutate", "replace"])})
+                labels.append("setopts")
             p = "/simfs/%s/s%d.feature" % (tname, oi)
             files[p] = text
             paths = [p] + ([list(files)[rng.randrange(len(files))]] if rng.random() < 0.4 else [])
